@@ -166,9 +166,96 @@ func decodeScenario(r *rand.Rand) scenarioT {
 	return sc
 }
 
+// compact, reference-dense programs that Finalize resolves: few labels, many references of both kinds to each (more
+// than any small per-label table holds), every label defined exactly once at a random place, everything within branch
+// range; optionally split into Clone/Append with references on both sides of the split
+func labelScenario(r *rand.Rand) scenarioT {
+	sc := scenarioT{Gen: r.Intn(10) < 7}
+	nl := 1 + r.Intn(4)
+	names := append([]string(nil), labelPool...)
+	r.Shuffle(len(names), func(i, j int) { names[i], names[j] = names[j], names[i] })
+	names = names[:nl]
+	var calls []callT
+	add := func(m string, a ...interface{}) {
+		if a == nil {
+			a = []interface{}{}
+		}
+		calls = append(calls, callT{m, a})
+	}
+	if r.Intn(2) == 0 {
+		add("SetBase", []int{0x8000, 0x7E2000, 0x1F8000, 0x00FF00, 0}[r.Intn(5)])
+	}
+	n := 6 + r.Intn(30)
+	size := 0
+	for i := 0; i < n && size < 110; i++ {
+		switch x := r.Intn(10); {
+		case x < 6:
+			lm := []string{"BNE", "BEQ", "BPL", "BMI", "BCC", "BCS", "BRA", "JMP_abs"}
+			m := lm[r.Intn(len(lm))]
+			l := names[r.Intn(len(names))]
+			if r.Intn(3) == 0 {
+				l = names[0] // one label collects many references
+			}
+			add(m, l)
+			size += 2
+			if m == "JMP_abs" {
+				size++
+			}
+		case x < 8:
+			add([]string{"NOP", "CLC", "DEY", "TAX", "DEX"}[r.Intn(5)])
+			size++
+		case x < 9:
+			b := make([]interface{}, 1+r.Intn(4))
+			for j := range b {
+				b[j] = r.Intn(256)
+			}
+			calls = append(calls, callT{"EmitBytes", b})
+			size += len(b)
+		default:
+			add("Comment", commentText(r))
+		}
+	}
+	// define every label once, at random positions after the optional SetBase
+	first := 0
+	if len(calls) > 0 && calls[0].M == "SetBase" {
+		first = 1
+	}
+	for _, l := range names {
+		at := first + r.Intn(len(calls)-first+1)
+		calls = append(calls[:at], append([]callT{{"Label", []interface{}{l}}}, calls[at:]...)...)
+	}
+	if r.Intn(2) == 0 {
+		split := first + r.Intn(len(calls)-first+1)
+		app := split + r.Intn(len(calls)-split+1)
+		var nc []callT
+		nc = append(nc, calls[:split]...)
+		nc = append(nc, callT{"Clone", []interface{}{1 << 12}})
+		nc = append(nc, calls[split:app]...)
+		nc = append(nc, callT{"Append", []interface{}{}})
+		nc = append(nc, calls[app:]...)
+		calls = nc
+	} else {
+		sc.Dry = r.Intn(3) == 0
+	}
+	sc.Cap = measure(calls, sc.Gen) + r.Intn(3)
+	if r.Intn(4) == 0 {
+		calls = append(calls, callT{"Hex", []interface{}{}})
+	}
+	calls = append(calls, callT{"Finalize", []interface{}{}})
+	if r.Intn(3) == 0 {
+		calls = append(calls, callT{"Finalize", []interface{}{}})
+	}
+	calls = append(calls, callT{"Hex", []interface{}{}}, callT{"Text", []interface{}{}})
+	sc.Calls = calls
+	return sc
+}
+
 func randomScenario(r *rand.Rand, profile string) scenarioT {
 	if profile == "decode" {
 		return decodeScenario(r)
+	}
+	if profile == "labels" {
+		return labelScenario(r)
 	}
 	methods := emitMethods()
 	sc := scenarioT{Gen: r.Intn(10) < 7}
